@@ -1,6 +1,7 @@
 package main
 
 import (
+	"strings"
 	"go/ast"
 	"go/token"
 	"go/types"
@@ -85,7 +86,9 @@ func (e *Env) classifyRec(x ast.Expr, visiting map[types.Object]bool) *Term {
 								return IntLit(1)
 							}
 						}
-						return e.classVar(e.fc.Params[i])
+						if e.classPoly(e.fc.Params[i]) {
+							return e.classVar(e.fc.Params[i])
+						}
 					}
 					return IntLit(2)
 				}
@@ -218,4 +221,18 @@ func collectLocalDefs(info *types.Info, body *ast.BlockStmt) map[types.Object][]
 		return true
 	})
 	return out
+}
+
+
+// classPoly: a parameter is class-polymorphic iff the contract speaks about $class(param).
+func (e *Env) classPoly(param string) bool {
+	if e.fc == nil {
+		return false
+	}
+	for _, cl := range e.fc.Clauses {
+		if strings.Contains(cl.Text, "$class("+param+")") {
+			return true
+		}
+	}
+	return false
 }
